@@ -53,6 +53,32 @@ def _sx1(i):
     raise TypeError(f'cannot encode {i!r}')
 
 
+def parse_sx(s):
+    """parse one s-expression (as printed by the Lean drivers) into nested lists of strings"""
+    toks = s.replace('(', ' ( ').replace(')', ' ) ').split()
+    pos = 0
+
+    def rd():
+        nonlocal pos
+        t = toks[pos]
+        pos += 1
+        if t == '(':
+            out = []
+            while toks[pos] != ')':
+                out.append(rd())
+            pos += 1
+            return out
+        return t
+    return rd()
+
+
+def to_frac(t):
+    if '/' in t:
+        a, b = t.split('/')
+        return Fraction(int(a), int(b))
+    return Fraction(int(t))
+
+
 class SX:
     """pre-rendered s-expression"""
     def __init__(self, s):
@@ -300,6 +326,11 @@ class Ctx:
                 self.suspects.append((stream, c.get('input')))
             return
         for c, o in zip(cases, outs):
+            if c.get('canon') is not None and not o.startswith('ERR:') and not o.startswith('bad-'):
+                try:
+                    o = c['canon'](o)
+                except Exception as e:  # noqa
+                    o = f'uncanonicalisable model output: {o[:200]} ({e})'
             self.count(stream, key=c.get('key', c['line']), nontrivial=c.get('nontrivial', True),
                        bucket=c.get('bucket'), sample={'request': c['line'][:400], 'impl': c['impl'][:300], 'model': o[:300]})
             if o != c['impl']:
